@@ -224,7 +224,64 @@ def hoist_call_arguments(tree: ast.Module) -> None:
     ast.fix_missing_locations(tree)
 
 
+def strip_annotations(tree: ast.Module) -> None:
+    """Remove every parameter and return annotation (rules must not depend on type hints being present)."""
+    for n in ast.walk(tree):
+        if isinstance(n, ast.FunctionDef):
+            n.returns = None
+            for a in n.args.posonlyargs + n.args.args + n.args.kwonlyargs:
+                a.annotation = None
+            if n.args.vararg:
+                n.args.vararg.annotation = None
+            if n.args.kwarg:
+                n.args.kwarg.annotation = None
+
+
+def reorder_defs(tree: ast.Module) -> None:
+    """Reverse the order of the methods of every class and of runs of undecorated top-level functions."""
+    for n in ast.walk(tree):
+        if isinstance(n, ast.ClassDef):
+            idx = [i for i, x in enumerate(n.body) if isinstance(x, ast.FunctionDef)]
+            fns = [n.body[i] for i in idx][::-1]
+            for i, f in zip(idx, fns):
+                n.body[i] = f
+    body = tree.body
+    i = 0
+    while i < len(body):
+        j = i
+        while j < len(body) and isinstance(body[j], ast.FunctionDef) and not body[j].decorator_list:
+            j += 1
+        if j - i > 1:
+            body[i:j] = body[i:j][::-1]
+        i = max(j, i + 1)
+
+
+def flip_comparisons(tree: ast.Module) -> None:
+    """``a <= b`` becomes ``b >= a`` (and so on) for every single ordered comparison."""
+    flip = {ast.Lt: ast.Gt, ast.LtE: ast.GtE, ast.Gt: ast.Lt, ast.GtE: ast.LtE}
+    for n in ast.walk(tree):
+        if isinstance(n, ast.Compare) and len(n.ops) == 1 and type(n.ops[0]) in flip:
+            n.left, n.comparators = n.comparators[0], [n.left]
+            n.ops = [flip[type(n.ops[0])]()]
+
+
+def swap_branches(tree: ast.Module) -> None:
+    """``if c: A else: B`` becomes ``if not c: B else: A`` (plain else only); ``x if c else y`` becomes ``y if not c else x``."""
+    for n in ast.walk(tree):
+        if isinstance(n, ast.If) and n.orelse and not (len(n.orelse) == 1 and isinstance(n.orelse[0], ast.If)):
+            n.test = ast.UnaryOp(op=ast.Not(), operand=n.test)
+            n.body, n.orelse = n.orelse, n.body
+        elif isinstance(n, ast.IfExp):
+            n.test = ast.UnaryOp(op=ast.Not(), operand=n.test)
+            n.body, n.orelse = n.orelse, n.body
+    ast.fix_missing_locations(tree)
+
+
 TREE_TWINS = {"alpha-renaming of all locals in every function": rename_locals,
+              "every type annotation of every signature removed": strip_annotations,
+              "methods of every class and runs of top-level functions in reverse order": reorder_defs,
+              "every ordered comparison written the other way round (a <= b as b >= a)": flip_comparisons,
+              "every if/else and conditional expression with negated test and swapped branches": swap_branches,
               "assert + logging call inserted at the top of every function": add_asserts,
               "call arguments hoisted into fresh locals in every function": hoist_call_arguments}
 
